@@ -622,6 +622,20 @@ def class_kf_b(occs):
     return False
 
 
+def simple_program(tree):
+    """no catch clause, no label (definition or labelled jump), no named function expression - the class of
+    `capture_free_of_walk_facts` (Props/C07.lean)"""
+    ok = [True]
+
+    def on(n):
+        if n.kind in ('Catch', 'Label'):
+            ok[0] = False
+        elif n.kind in ('Break', 'Continue', 'FuncExpr') and n.get('identifier') is not None:
+            ok[0] = False
+    _walk(tree, on)
+    return ok[0]
+
+
 # ----------------------------------------------------------------------------- the check
 
 class Check(object):
@@ -739,6 +753,7 @@ class Check(object):
             ctx.bump('ScopeAgree:' + rep)
             # model-level tests, per program:  (a) the missing lemma  `not excluded p  =>  alignedOf p`  (Props/C07.lean),
             # (b) the proved theorem  `alignedOf p  =>  bindingPreserved p`  (a driver/definition sanity check)
+            is_simple = simple_program(ut.dump_tree(tree))
             for fl in (('0 0 K', '1 1 K') if len(text) < 3000 else ()):
                 pres = self.drv.ask('preserved %s %s' % (fl, line))
                 al = self.drv.ask('aligned %s %s' % (fl, line))
@@ -747,6 +762,12 @@ class Check(object):
                 ctx.bump('model:aligned[%s]:%s' % (fl, al))
                 ctx.bump('model:excluded[%s]:%s' % (fl, ex))
                 self.n_impl += 1
+                # (c) the walk facts of simple programs (hypothesis of `capture_free_of_walk_facts`)
+                if is_simple and fl == '1 1 K':
+                    fa = self.drv.ask('facts %s %s' % (fl, line))
+                    ctx.bump('model:walk-facts[simple,%s]:%s' % (fl, fa))
+                    if fa != 'OK T':
+                        self.impl_fail.append(dict(text=text[:400], flags=fl, what='simple program but walk facts fail: %s' % fa))
                 if ex.startswith('OK F') and al != 'OK T':
                     self.impl_fail.append(dict(text=text[:400], flags=fl, what='not excluded but not aligned: %s' % al))
                 if al == 'OK T' and pres != 'OK T':
@@ -807,7 +828,7 @@ class Check(object):
             ctx.violation('obfuscation breaks the property (%s): %r with %s: %s'
                           % (', '.join(key), small[:300], cfg.id, sfails[0][1][:300]),
                           dict(kind='program', text=small, printer=cfg.todict(), categories=list(key)), True)
-        ctx.obligation('model: not excluded implies aligned (the lemma missing for binding_preserved; tested per program), aligned implies preserved',
+        ctx.obligation('model: not excluded implies aligned (the lemma missing for binding_preserved; tested per program), aligned implies preserved, simple programs have the walk facts',
                        not self.impl_fail, 'tie', '%d (program, flags) pairs; counterexamples: %r' % (self.n_impl, self.impl_fail[:2]))
         for stage, what in (('S7', 'Obfuscator state after the prewalk (scope tree, counts, remap tables, resolved names) vs drv_obf'),
                             ('S4', 'fragment streams of the obfuscating printers vs Model.Obfuscate + Model.Unparse'),
